@@ -162,23 +162,49 @@ Theorem C12_certified_rule_exact : forall (E F : Z) (d : nat) (en ed : Z) (xs ws
     <= IZR en / IZR ed * Rabs (tr_u a b) * scale_cmod cs (tr_M a b).
 Proof. exact certified_rule_exact. Qed.
 
-(* ---- the gauss-quad adapter of Integrator::GaussLegendre (hand model, tied by rule extraction), for ANY table *)
+(* ---- the external-integrator arms of Integrator::integrate / integrate2d are TRANSLATED with the crates as oracles.
+   Gauss-Legendre: for every table of fixed linear rules ([rule_oracle table] applies table n with gauss-quad's affine
+   transfer) the generated adapters — two real passes, re/im recombination, degree.max(2), nesting order — are the rule and
+   the tensor rule *)
+Theorem C12_gl_adapter_is_rule : forall (table : Z -> rule Rops) (func : R -> C) (a b : R) degree,
+  integrate_GaussLegendre Rops (rule_oracle Rops table) func a b degree =
+  apply_rule Rops (gq_transfer Rops (table (gl_points degree)) a b) func.
+Proof. exact gl_adapter_is_rule. Qed.
+
+Theorem C12_gl_adapter_2d_is_rule : forall (table : Z -> rule Rops) (func : R -> R -> C) (a b c d : R) degree,
+  integrate2d_GaussLegendre Rops (rule_oracle Rops table) func a b c d degree =
+  apply_rule2 Rops (tensor Rops (gq_transfer Rops (table (gl_points degree)) a b) (gq_transfer Rops (table (gl_points degree)) c d)) func.
+Proof. exact gl_adapter_2d_is_rule. Qed.
+
 Theorem C12_gl_adapter_exact : forall (table : Z -> rule Rops) (degree : Z) (d : nat) (eps : R),
   (forall k, (k <= d)%nat -> Rabs (moment (table (gl_points degree)) k - leg_moment k) <= eps) ->
   forall (a b : R) (cs : list C), (length cs <= S d)%nat ->
-  Cmod (Cminus (integrate_GaussLegendre Rops table (cpeval Rops cs) a b degree) (cpint Rops cs a b))
+  Cmod (Cminus (integrate_GaussLegendre Rops (rule_oracle Rops table) (cpeval Rops cs) a b degree) (cpint Rops cs a b))
     <= eps * Rabs (tr_u a b) * scale_cmod cs (tr_M a b).
 Proof. exact gl_adapter_exact. Qed.
 
 Theorem C12_gl_adapter_linear : forall (table : Z -> rule Rops) (degree : Z) (alpha beta : C) (f g : R -> C) (a b : R),
-  integrate_GaussLegendre Rops table (fun x => Cplus (Cmult alpha (f x)) (Cmult beta (g x))) a b degree =
-  Cplus (Cmult alpha (integrate_GaussLegendre Rops table f a b degree)) (Cmult beta (integrate_GaussLegendre Rops table g a b degree)).
+  integrate_GaussLegendre Rops (rule_oracle Rops table) (fun x => Cplus (Cmult alpha (f x)) (Cmult beta (g x))) a b degree =
+  Cplus (Cmult alpha (integrate_GaussLegendre Rops (rule_oracle Rops table) f a b degree))
+        (Cmult beta (integrate_GaussLegendre Rops (rule_oracle Rops table) g a b degree)).
 Proof. exact gl_adapter_linear. Qed.
 
 Theorem C12_gl_adapter_2d_separable : forall (table : Z -> rule Rops) (degree : Z) (p q : R -> C) (a b c d : R),
-  integrate2d_GaussLegendre Rops table (fun x y => Cmult (p x) (q y)) a b c d degree =
-  Cmult (integrate_GaussLegendre Rops table p a b degree) (integrate_GaussLegendre Rops table q c d degree).
+  integrate2d_GaussLegendre Rops (rule_oracle Rops table) (fun x y => Cmult (p x) (q y)) a b c d degree =
+  Cmult (integrate_GaussLegendre Rops (rule_oracle Rops table) p a b degree)
+        (integrate_GaussLegendre Rops (rule_oracle Rops table) q c d degree).
 Proof. exact gl_adapter_2d_separable. Qed.
+
+(* Clenshaw-Curtis and Gauss-Kronrod: what the generated adapters hand to the external integrators (any oracle) *)
+Theorem C12_cc_gk_adapters : forall (cc : (R -> R) -> R -> R -> R -> R) (gk : R -> nat -> (C -> C) -> C -> C -> C)
+    (f : R -> C) (g : R -> R -> C) (a b c d tol : R) iters,
+  integrate_ClenshawCurtis Rops cc f a b tol = (cc (fun x => fst (f x)) a b tol, cc (fun x => snd (f x)) a b tol) /\
+  integrate2d_ClenshawCurtis Rops cc g a b c d tol =
+    (cc (fun x => cc (fun y => fst (g x y)) c d tol) a b tol, cc (fun x => cc (fun y => snd (g x y)) c d tol) a b tol) /\
+  integrate_GaussKonrod Rops gk f a b tol iters = gk tol iters (fun z => f (fst z)) (a, 0) (b, 0) /\
+  integrate2d_GaussKonrod Rops gk g a b c d tol iters =
+    gk tol iters (fun z => gk tol iters (fun w => g (fst z) (fst w)) (c, 0) (d, 0)) (a, 0) (b, 0).
+Proof. exact cc_gk_adapters. Qed.
 
 (* 2-D adapter on a product of complex polynomials of degree <= d, from the two 1-D certificate bounds *)
 Theorem C12_gl_adapter_2d_exact : forall (table : Z -> rule Rops) (degree : Z) (d : nat) (eps : R),
@@ -186,7 +212,7 @@ Theorem C12_gl_adapter_2d_exact : forall (table : Z -> rule Rops) (degree : Z) (
   forall (a b c e : R) (cp cq : list C), (length cp <= S d)%nat -> (length cq <= S d)%nat ->
   let Bp := eps * Rabs (tr_u a b) * scale_cmod cp (tr_M a b) in
   let Bq := eps * Rabs (tr_u c e) * scale_cmod cq (tr_M c e) in
-  Cmod (Cminus (integrate2d_GaussLegendre Rops table (fun x y => Cmult (cpeval Rops cp x) (cpeval Rops cq y)) a b c e degree)
+  Cmod (Cminus (integrate2d_GaussLegendre Rops (rule_oracle Rops table) (fun x y => Cmult (cpeval Rops cp x) (cpeval Rops cq y)) a b c e degree)
                (Cmult (cpint Rops cp a b) (cpint Rops cq c e)))
     <= Bp * (Cmod (cpint Rops cq c e) + Bq) + Cmod (cpint Rops cp a b) * Bq.
 Proof. exact gl_adapter_2d_exact. Qed.
@@ -297,6 +323,9 @@ Print Assumptions C12_rule_certificate_transfer.
 Print Assumptions C12_transfer_scale.
 Print Assumptions C12_rule_certificate_reverse.
 Print Assumptions C12_certified_rule_exact.
+Print Assumptions C12_gl_adapter_is_rule.
+Print Assumptions C12_gl_adapter_2d_is_rule.
+Print Assumptions C12_cc_gk_adapters.
 Print Assumptions C12_gl_adapter_exact.
 Print Assumptions C12_gl_adapter_linear.
 Print Assumptions C12_gl_adapter_2d_separable.
